@@ -223,6 +223,76 @@ theorem C01_pointset (core : ClipCore) (hcore : CoreSpec core.bool) (recv arg : 
     | diff => exact key _ rfl
     | xor => exact key _ rfl
 
+/-! ## even–odd membership is the natural reading for well-nested operands -/
+
+theorem xorFold_of_atMostOne (bs : List Bool) (h : atMostOne bs = true) :
+    bs.foldr (fun b acc => b ^^ acc) false = bs.any id := by
+  induction bs with
+  | nil => rfl
+  | cons b r ih =>
+    simp only [atMostOne, Bool.and_eq_true, Bool.or_eq_true, Bool.not_eq_true'] at h
+    have := ih h.2
+    simp only [List.foldr_cons, List.any_cons, id, this]
+    rcases h.1 with h1 | h1
+    · simp [h1]
+    · simp [h1]
+
+theorem inside_eq_foldr_map (hs : List Ring) (p : P) :
+    inside hs p = (hs.map fun h => insideRing h p).foldr (fun b acc => b ^^ acc) false := by
+  induction hs with
+  | nil => rfl
+  | cons h hs ih => simp [inside_cons, ih]
+
+theorem memberPoly_natural (rs : List Ring) (p : P) (h : nestedAt rs p = true) :
+    inside rs p = memberPolyNat rs p := by
+  cases rs with
+  | nil => rfl
+  | cons shell holes =>
+    simp only [nestedAt, Bool.and_eq_true] at h
+    obtain ⟨hin, hone⟩ := h
+    have e : inside holes p = (holes.any fun h => insideRing h p) := by
+      rw [inside_eq_foldr_map, xorFold_of_atMostOne _ hone]; simp [List.any_map]
+    rw [inside_cons, e]
+    simp only [memberPolyNat]
+    cases ha : (holes.any fun h => insideRing h p) with
+    | false => simp
+    | true =>
+      obtain ⟨hole, hm, hi⟩ := List.any_eq_true.1 ha
+      have := List.all_eq_true.1 hin hole hm
+      simp [hi] at this
+      simp [this]
+
+/-- **Spec bridge.** Where holes lie in their shells, holes are disjoint and member polygons are
+disjoint, the even–odd rule over all rings is "in some member's shell and in none of its holes". -/
+theorem member_eq_memberNat (A : Operand) (p : P) (h : wellNestedAt A p = true) : member A p = memberNat A p := by
+  cases A with
+  | poly rs => exact memberPoly_natural rs p h
+  | box mn mx => rfl
+  | multi ps =>
+    simp only [wellNestedAt, Bool.and_eq_true] at h
+    obtain ⟨hall, hone⟩ := h
+    have e : ∀ qs : List (List Ring), (∀ rs ∈ qs, nestedAt rs p = true) →
+        qs.foldr (fun rs acc => inside rs p ^^ acc) false =
+          (qs.map fun rs => memberPolyNat rs p).foldr (fun b acc => b ^^ acc) false := by
+      intro qs hq
+      induction qs with
+      | nil => rfl
+      | cons a qs ih =>
+        simp only [List.foldr_cons, List.map_cons]
+        rw [memberPoly_natural a p (hq a (by simp)), ih (fun rs hr => hq rs (by simp [hr]))]
+    simp only [member, memberNat]
+    rw [e ps (fun rs hr => List.all_eq_true.1 hall rs hr), xorFold_of_atMostOne _ hone]
+    simp [List.any_map]
+
+/-- `C01_pointset` in the natural reading of the operands -/
+theorem C01_pointset_natural (core : ClipCore) (hcore : CoreSpec core.bool) (recv arg : Operand) (op : Op) (p : P)
+    (hvr : Valid recv = true) (hva : Valid arg = true) (hgp : GeneralPosition recv arg = true)
+    (hor : offBoundary recv p = true) (hoa : offBoundary arg p = true)
+    (hnr : wellNestedAt recv p = true) (hna : wellNestedAt arg p = true) :
+    memberRes (api core recv arg op) p = opBool op (memberNat recv p) (memberNat arg p) := by
+  rw [← member_eq_memberNat recv p hnr, ← member_eq_memberNat arg p hna]
+  exact C01_pointset core hcore recv arg op p hvr hva hgp hor hoa
+
 /-! ## clause 2: closed rings -/
 
 theorem closeRing_closed (r : Ring) : closeRing r ≠ [] ∧ (closeRing r).head? = (closeRing r).getLast? := by
